@@ -175,9 +175,24 @@ func (e *Exec) run() {
 
 	e.findLoops()
 	order := e.topo()
+	// ancestor sets over the forward (loop-cut) CFG
+	c.anc = map[int]map[int]bool{}
+	for _, b := range order {
+		set := map[int]bool{b.Index: true}
+		for _, p := range b.Preds {
+			if e.isBackEdge(p, b) {
+				continue
+			}
+			for a := range c.anc[p.Index] {
+				set[a] = true
+			}
+		}
+		c.anc[b.Index] = set
+	}
 	st0 := State{pc: "true", heap: entry}
 	for _, b := range order {
 		var st State
+		c.curBlk = b.Index
 		if b == fn.Blocks[0] {
 			st = st0
 		} else {
@@ -191,6 +206,7 @@ func (e *Exec) run() {
 			continue
 		}
 		e.curBlock = b
+		c.curBlk = b.Index
 		if li := e.loops[b]; li != nil {
 			st = e.enterLoop(li, st)
 		}
@@ -205,6 +221,7 @@ func (e *Exec) run() {
 	for _, li := range hs {
 		e.closeLoop(li)
 	}
+	c.curBlk = -1
 	if e.hasRet {
 		o := c.oblige("vacuity", "return.reachable", "true", "false", "some return is reachable (expect sat)", e.pos(fn.Pos()))
 		o.Expect = "sat"
@@ -558,6 +575,17 @@ func (e *Exec) closeLoop(li *loopInfo) {
 	}
 	pc := or(conds...)
 	heap := c.hmerge(conds, hs)
+	c.curBlk = li.backs[0].from.Index
+	var srcBlocks []int
+	for _, b := range li.backs {
+		srcBlocks = append(srcBlocks, b.from.Index)
+	}
+	nObl := len(c.obls)
+	defer func() {
+		for _, o := range c.obls[nObl:] {
+			o.Blocks = srcBlocks
+		}
+	}()
 	phiVal := func(phi *ssa.Phi) Val {
 		var vals []Val
 		for _, b := range li.backs {
